@@ -134,6 +134,8 @@ func (e *Engine) initProgram() (err error) {
 	e.entangled = map[int32]bool{}
 	e.ufParent = map[int32]int32{}
 	e.multiConj = map[int32][]*Term{}
+	e.sha1OutTerm = map[int32]sha1Ref{}
+	e.sha1OutConc = map[string]int{}
 	e.setModel(Model{})
 	e.resetSched()
 	e.inInit = true
